@@ -168,6 +168,9 @@ def library():
         ('custom_braces', D(('>', 0.0, {"custom": "br", "params": [2.0]})), {'numeric'}),
         ('custom_case', D({"custom": "cs", "params": [800.0, 0.33, 12.0]}), {'numeric'}),
         ('custom_20params', D({"custom": "p20", "params": [1.5] + [round(3.0 / (i + 1), 6) * (-1) ** i for i in range(1, 20)]}), {'numeric'}),
+        # the same definition given twice to one modifier (squaring a switching function, doubling a term)
+        ('product_same', D(mod('product', form('morse', 1.8, 2.0, 0.6), form('morse', 1.8, 2.0, 0.6))), {'api'}),
+        ('sum_same3', D(mod('sum', form('buck', 1000.0, 0.3, 32.0), form('lj', 0.2, 2.5), form('lj', 0.2, 2.5), form('buck', 1000.0, 0.3, 32.0))), {'api'}),
         ('custom_keyword', D({"custom": "yk", "params": [500.0, 0.6, 1.5]}), {'numeric'}),
         # modifiers whose operands are a formula (no analytic derivative) and a built-in form, both ways round; more than two operands of pow
         ('pow_custom', D(mod('pow', {"custom": "ms", "params": [650.0, 0.35]}, form('constant', 2))), {'numeric'}),
